@@ -62,4 +62,5 @@ bc0d713 C10
 894c061 C14
 4d9c9d1 C15 C01
 3a169e8 C19
+8026e10 C09
 LIST
